@@ -93,6 +93,7 @@ type cfg struct {
 	Drop, Dup  float64
 	MaxDelayMS int
 	FailP      float64
+	BNFailP    float64 // the first submission of a (node, duty) to the beacon mock fails with a retryable error
 	Cut        [][2]int
 	Script     []scriptEntry // per slot (slot mod len): scripted deliveries / Byzantine messages (from a WorkflowGen history)
 }
@@ -116,7 +117,7 @@ func cfgOf(s drv.Step) cfg {
 		Secs: int(f("secs", 12)), Seed: int64(f("seed", 1)), SPE: int(f("spe", 4)), Diverge: int(f("diverge", 0)),
 		Byz: int(f("byz", 0)), ByzVC: drv.Str(s["byzvc"]), InjectP: f("injectp", 0.5), ExVerify: true,
 		LateN: int(f("late_n", 0)), LateMS: int(f("late_ms", 0)), StopN: int(f("stop_n", 0)), StopMS: int(f("stop_ms", 0)),
-		Drop: f("drop", 0), Dup: f("dup", 0), MaxDelayMS: int(f("maxdelay", 0)), FailP: f("failp", 0)}
+		Drop: f("drop", 0), Dup: f("dup", 0), MaxDelayMS: int(f("maxdelay", 0)), FailP: f("failp", 0), BNFailP: f("bnfailp", 0)}
 	if v, ok := s["exverify"].(bool); ok {
 		c.ExVerify = v
 	}
@@ -195,6 +196,28 @@ type recorder struct {
 	evs    []rawEv
 	open   map[corrKey][]int64
 	onCall func(node int, edge string, duty core.Duty, arg any) // called outside the lock, with the clone
+	// a mis-wired composition may flood (every received partial re-broadcast ...): the recording stops at maxEvents
+	// and the cluster is stopped; the log then ends with an Overflow event that no spec step matches
+	overflow   bool
+	onOverflow func()
+}
+
+const maxEvents = 150000
+
+func (r *recorder) full() bool {
+	if r.overflow {
+		return true
+	}
+	if len(r.evs) >= maxEvents {
+		r.overflow = true
+		if r.onOverflow != nil {
+			go r.onOverflow()
+		}
+
+		return true
+	}
+
+	return false
 }
 
 func ptrOf(arg any) uintptr {
@@ -308,6 +331,11 @@ func (r *recorder) observer(node int) func(string, core.Duty, any, error) {
 			keep = cloneArg(arg)
 		}
 		r.mu.Lock()
+		if r.full() {
+			r.mu.Unlock()
+
+			return
+		}
 		r.seq++
 		ev := rawEv{seq: r.seq, node: node, edge: name, call: call, duty: duty, arg: keep, err: err}
 		switch {
@@ -338,6 +366,9 @@ func (r *recorder) observer(node int) func(string, core.Duty, any, error) {
 func (r *recorder) custom(node int, edge string, duty core.Duty, arg any, step drv.Step) {
 	r.mu.Lock()
 	defer r.mu.Unlock()
+	if edge != "End" && r.full() {
+		return
+	}
 	r.seq++
 	r.evs = append(r.evs, rawEv{seq: r.seq, node: node, edge: edge, duty: duty, arg: arg, step: step})
 }
@@ -371,6 +402,8 @@ type run struct {
 	rng      *rand.Rand
 	okMu     sync.Mutex
 	okCache  map[string]bool
+	bnMu     sync.Mutex
+	bnSeen   map[string]bool
 }
 
 func (r *run) rnd() float64 {
@@ -450,6 +483,63 @@ func (r *run) bmockOpts(node int) []beaconmock.Option {
 
 			return d, nil
 		}
+		m.SubmitAttestationsFunc = func(_ context.Context, opts *eth2api.SubmitAttestationsOpts) error {
+			var sds []core.SignedData
+			var slot uint64
+			for _, a := range opts.Attestations {
+				sd, err := core.NewVersionedAttestation(a)
+				if err != nil {
+					continue
+				}
+				if d, err := a.Data(); err == nil {
+					slot = uint64(d.Slot)
+				}
+				sds = append(sds, sd)
+			}
+
+			return r.bnSubmit(node, core.NewAttesterDuty(slot), sds)
+		}
+		m.SubmitSyncCommitteeMessagesFunc = func(_ context.Context, msgs []*altair.SyncCommitteeMessage) error {
+			var sds []core.SignedData
+			var slot uint64
+			for _, a := range msgs {
+				slot = uint64(a.Slot)
+				sds = append(sds, core.NewSignedSyncMessage(a))
+			}
+
+			return r.bnSubmit(node, core.NewSyncMessageDuty(slot), sds)
+		}
+		m.SubmitProposalFunc = func(_ context.Context, opts *eth2api.SubmitProposalOpts) error {
+			sd, err := core.NewVersionedSignedProposal(opts.Proposal)
+			if err != nil {
+				return nil
+			}
+			slot, _ := opts.Proposal.Slot()
+
+			return r.bnSubmit(node, core.NewProposerDuty(uint64(slot)), []core.SignedData{sd})
+		}
+		m.SubmitAggregateAttestationsFunc = func(_ context.Context, opts *eth2api.SubmitAggregateAttestationsOpts) error {
+			var sds []core.SignedData
+			var slot uint64
+			for _, a := range opts.SignedAggregateAndProofs {
+				if sl, err := a.Slot(); err == nil {
+					slot = uint64(sl)
+				}
+				sds = append(sds, core.NewVersionedSignedAggregateAndProof(a))
+			}
+
+			return r.bnSubmit(node, core.NewAggregatorDuty(slot), sds)
+		}
+		m.SubmitSyncCommitteeContributionsFunc = func(_ context.Context, cs []*altair.SignedContributionAndProof) error {
+			var sds []core.SignedData
+			var slot uint64
+			for _, a := range cs {
+				slot = uint64(a.Message.Contribution.Slot)
+				sds = append(sds, core.NewSignedSyncContributionAndProof(a))
+			}
+
+			return r.bnSubmit(node, core.NewSyncContributionDuty(slot), sds)
+		}
 		prevAgg := m.AggregateAttestationFunc
 		m.AggregateAttestationFunc = func(ctx context.Context, slot eth2p0.Slot, root eth2p0.Root) (*eth2spec.VersionedAttestation, error) {
 			r.attMu.Lock()
@@ -482,6 +572,30 @@ func (r *run) bmockOpts(node int) []beaconmock.Option {
 
 	return opts
 }
+
+// bnSubmit records what a node's Broadcaster hands to its beacon node (the emission in the sense of C01).
+func (r *run) bnSubmit(node int, duty core.Duty, sds []core.SignedData) error {
+	if len(sds) == 0 {
+		return nil
+	}
+	set := bnSet(sds)
+	k := fmt.Sprintf("%d/%s", node, dutyStr(duty))
+	r.bnMu.Lock()
+	first := !r.bnSeen[k]
+	r.bnSeen[k] = true
+	r.bnMu.Unlock()
+	if first && r.c.BNFailP > 0 && r.rnd() < r.c.BNFailP {
+		r.rec.custom(node, "BNFail", duty, set, nil)
+
+		return fmt.Errorf("verif: retryable beacon node error") // isTemporaryBeaconErr: the retryer tries again
+	}
+	r.rec.custom(node, "BNSub", duty, set, nil)
+
+	return nil
+}
+
+// bnSet is a list of signed objects as a beacon node receives them (no validator attribution).
+type bnSet []core.SignedData
 
 func (r *run) attStoreSnapshot() map[eth2p0.Root]bool {
 	r.attMu.Lock()
@@ -1122,6 +1236,17 @@ func (r *run) argFields(e rawEv, out drv.Step) {
 			set = append(set, drv.Step{"v": r.vidx[pk], "k": subIdx(e.duty.Type, d), "r": mr, "u": u, "ok": r.verifies(d, r.group[pk])})
 		}
 		out["set"] = sortSteps(set)
+	case bnSet:
+		set := []any{}
+		for _, d := range a {
+			mr, _ := signedRoots(d)
+			ok := false
+			for _, g := range r.group { // a beacon node is not told the validator: some group key must verify it
+				ok = ok || r.verifies(d, g)
+			}
+			set = append(set, drv.Step{"r": mr, "ok": ok})
+		}
+		out["set"] = sortSteps(set)
 	case core.VerifQuery:
 		out["u"] = ""
 		switch q := a.Result.(type) {
@@ -1164,9 +1289,10 @@ var queryKinds = map[string]string{
 	"FetcherAggSigDBAwait": "fsig",
 }
 
-func (r *run) events() []drv.Step {
+// events converts the raw observations from position `from` on.
+func (r *run) events(from int) ([]drv.Step, int) {
 	r.rec.mu.Lock()
-	evs := append([]rawEv(nil), r.rec.evs...)
+	evs := append([]rawEv(nil), r.rec.evs[from:]...)
 	r.rec.mu.Unlock()
 	var out []drv.Step
 	for _, e := range evs {
@@ -1207,11 +1333,30 @@ func (r *run) events() []drv.Step {
 		out = append(out, s)
 	}
 
-	return out
+	return out, from + len(evs)
+}
+
+// stream writes the log while the cluster runs (a mis-wired or mutated composition may crash the process: what was
+// observed until then is on disk and is validated as far as it goes).
+type stream struct {
+	mu sync.Mutex
+	f  *os.File
+}
+
+func (w *stream) emit(evs []drv.Step) {
+	w.mu.Lock()
+	defer w.mu.Unlock()
+	for _, e := range evs {
+		b, err := json.Marshal(e)
+		if err != nil {
+			panic(err)
+		}
+		w.f.Write(append(b, '\n'))
+	}
 }
 
 // ---------------------------------------------------------------------------------------------------------------------
-func runCluster(t *testing.T, sid int, c cfg) []drv.Step {
+func runCluster(t *testing.T, sid int, c cfg, out *stream) {
 	ctx, cancel := context.WithCancel(context.Background())
 	defer cancel()
 	random := rand.New(rand.NewSource(c.Seed))
@@ -1220,8 +1365,8 @@ func runCluster(t *testing.T, sid int, c cfg) []drv.Step {
 	})
 	r := &run{t: t, c: c, ctx: ctx, lock: lock, shares: shares, vidx: map[core.PubKey]int{}, group: map[core.PubKey]tbls.PublicKey{},
 		pubs: map[core.PubKey]map[int]tbls.PublicKey{}, hosts: map[int]host.Host{}, attStore: map[eth2p0.Root]*eth2p0.AttestationData{},
-		rng: rand.New(rand.NewSource(c.Seed * 7919)), okCache: map[string]bool{}, slotDur: time.Second}
-	r.rec = &recorder{open: map[corrKey][]int64{}}
+		rng: rand.New(rand.NewSource(c.Seed * 7919)), okCache: map[string]bool{}, bnSeen: map[string]bool{}, slotDur: time.Second}
+	r.rec = &recorder{open: map[corrKey][]int64{}, onOverflow: cancel}
 	r.ex = &exchange{r: r, subs: map[int][]exSub{}, sent: map[string]bool{}}
 	for v, val := range lock.Validators {
 		pk, err := core.PubKeyFromBytes(val.PubKey)
@@ -1275,6 +1420,32 @@ func runCluster(t *testing.T, sid int, c cfg) []drv.Step {
 	}
 	defer func() { app.VerifNodeWireOpts = nil }()
 
+	byzs := []any{}
+	if c.Byz != 0 {
+		byzs = append(byzs, c.Byz)
+	}
+	out.emit([]drv.Step{{"ev": "Reset", "sid": sid, "n": c.N, "t": lock.Threshold, "nv": c.NV, "byz": byzs, "exverify": c.ExVerify || c.Mode == "p2p",
+		"mode": c.Mode, "kind": c.Kind, "seed": c.Seed}})
+	streamed := make(chan struct{})
+	stopStream := make(chan struct{})
+	go func() {
+		defer close(streamed)
+		pos := 0
+		for {
+			var evs []drv.Step
+			evs, pos = r.events(pos)
+			out.emit(evs)
+			select {
+			case <-stopStream:
+				evs, _ = r.events(pos)
+				out.emit(evs)
+
+				return
+			case <-time.After(150 * time.Millisecond):
+			}
+		}
+	}()
+
 	relayAddr := relay.StartRelay(ctx, t)
 	var wg sync.WaitGroup
 	cancels := make([]context.CancelFunc, c.N)
@@ -1321,6 +1492,15 @@ func runCluster(t *testing.T, sid int, c cfg) []drv.Step {
 	case <-time.After(time.Duration(c.Secs) * time.Second):
 	case <-ctx.Done():
 	}
+	r.rec.mu.Lock()
+	over := r.rec.overflow
+	r.rec.mu.Unlock()
+	if over {
+		r.rec.mu.Lock()
+		r.rec.seq++
+		r.rec.evs = append(r.rec.evs, rawEv{seq: r.rec.seq, edge: "Overflow"})
+		r.rec.mu.Unlock()
+	}
 	r.rec.custom(0, "End", core.Duty{}, nil, drv.Step{"ms": time.Since(t0).Milliseconds()})
 	cancel()
 	done := make(chan struct{})
@@ -1330,20 +1510,22 @@ func runCluster(t *testing.T, sid int, c cfg) []drv.Step {
 	case <-time.After(20 * time.Second):
 		t.Logf("nodes did not shut down in 20 s")
 	}
-	byz := []any{}
-	if c.Byz != 0 {
-		byz = append(byz, c.Byz)
-	}
-	evs := []drv.Step{{"ev": "Reset", "sid": sid, "n": c.N, "t": lock.Threshold, "nv": c.NV, "byz": byz, "exverify": c.ExVerify || c.Mode == "p2p",
-		"mode": c.Mode, "kind": c.Kind, "seed": c.Seed}}
-
-	return append(evs, r.events()...)
+	close(stopStream)
+	<-streamed
 }
 
 func TestExec(t *testing.T) {
 	scheds := drv.ReadSchedules(t)
-	tr := drv.NewTracer(t)
-	defer tr.Close()
+	path := os.Getenv("VERIF_OUT")
+	if path == "" {
+		t.Skip("VERIF_OUT not set")
+	}
+	f, err := os.Create(path)
+	if err != nil {
+		t.Fatal(err)
+	}
+	defer f.Close()
+	out := &stream{f: f}
 	if os.Getenv("VERIF_WF_LOGS") == "" {
 		drv.QuietLogs(t)
 	}
@@ -1354,8 +1536,6 @@ func TestExec(t *testing.T) {
 		if v, ok := sched[0]["sid"]; ok {
 			sid = drv.Num(v)
 		}
-		for _, e := range runCluster(t, sid, cfgOf(sched[0])) {
-			tr.Emit(e)
-		}
+		runCluster(t, sid, cfgOf(sched[0]), out)
 	}
 }
